@@ -439,6 +439,12 @@ def c03(run):
         return job
     units.trace_unit(run, [c for c in cases2 if c.status == "ok"], rng, per_case=10 if q else 20, tag="delivery",
                      scripts=False, bufsizes=(0, 1, 3, 8), scheds=[[1], [3], [], [2, 5]], job_filter=mem_delivery, inputs_fn=long_inputs)
+    # (c) read(2) (%option read): no stream in between, so the no-over-read clause applies in full
+    cfgs3 = [{"useread": True, "userread": False, "interactive": True}, {"useread": True, "userread": False, "interactive": False, "flavour": "r"},
+             {"useread": True, "userread": False, "interactive": True, "flavour": "c99"}]
+    cases3 = units.product_unit(run, fd, srcs[:30 if q else 80], cfgs3, tag="read2", san=True)
+    units.trace_unit(run, [c for c in cases3 if c.status == "ok"], rng, per_case=10 if q else 20, tag="read2traces", strictread=True, scripts=False,
+                     bufsizes=(0, 1, 3, 16), scheds=[[1], [2], [], [5, 1]], inputs_fn=long_inputs)
     units.buffer_model_unit(run)
     # known finding: an interactive scanner asks for one more byte after a NUL that completes a token
     def nul_probe(sub):
@@ -501,7 +507,8 @@ def c14(run):
     srcs = fam(run, profiles=("lit", "sc", "trail", "mix"), core=1, rnd=6 if q else 20, hand=False) + rulesets.handwritten()[:3]
     cfgs = [{"heap": True, "yymore": True, "userread": False}, {"heap": True, "reject": True, "userread": False, "array": True},
             {"heap": True, "flavour": "r", "userwrap": True, "userread": False}, {"heap": True, "tbl": "-Cf", "userread": False},
-            {"heap": True, "flavour": "c99", "userwrap": True, "userread": False, "yymore": True}]
+            {"heap": True, "flavour": "c99", "userwrap": True, "userread": False, "yymore": True},
+            {"heap": True, "useread": True, "userread": False}, {"heap": True, "useread": True, "userread": False, "flavour": "c99"}]
     cases = units.product_unit(run, fd, srcs, cfgs, tag="product", san=True)
     units.fault_unit(run, [c for c in cases if c.status == "ok"], rng, per_case=2 if q else 4, max_points=30 if q else 100)
     run.assumptions += ["one fault per run (single-fault enumeration over every allocation index / read index of each scenario, capped per scenario in the quick tier)"]
